@@ -18,7 +18,8 @@ LEVEL_TEXT = 'Held on Marlin/Grbl report families with random signed decimals, f
 RULE = ("sequences of 3-12 reports per case drawn from: Marlin M114 position reports (with Count block), "
         "Marlin temperature reports (with/without leading 'ok', with '/target', '@' fields), Grbl status "
         "reports (MPos or WPos, FS or F, fields shuffled, extra Bf/Ln/Pn/Ov/WCO fields), Grbl [PRB:...] "
-        "probe reports; signed decimals with 0-4 fraction digits incl. -0.00 and large values; lookup in "
+        "probe reports; a quarter of the reports repeat one of the last three distinct reports of the same "
+        "history byte for byte; signed decimals with 0-4 fraction digits incl. -0.00 and large values; lookup in "
         "either case; distinct = (family, field order, leading ok, #fraction digits)")
 ASSUMPTIONS = [
     "reports are delivered through printcore.recvcb as installed by PrintrunWriter._create_device (the same path the read thread uses)",
@@ -30,7 +31,8 @@ TIERS = {
 }
 FLOORS = {
     "quick": {"counts": {"reports_delivered": 15000, "readings_compared": 120000,
-                         "reports_with_leading_ok": 2000, "unmentioned_letters_checked": 50000}, "keys": 200},
+                         "reports_with_leading_ok": 2000, "unmentioned_letters_checked": 50000,
+                         "reports_repeated_verbatim": 2000}, "keys": 200},
     "thorough": {"counts": {"reports_delivered": 1000000}, "keys": 300},
 }
 LETTERS = ["X", "Y", "Z", "E", "T", "B", "F", "S", "A", "C"]
@@ -156,8 +158,16 @@ def run_case(ctx, col, case):
     device = delegate._create_device()          # printcore with recvcb/errorcb installed, not connected
     expected = {}
     log = []
+    seen = []
     for _ in range(rng.randint(3, 12)):
-        line, exp, key = rng.choice(FAMILIES)(rng)
+        if seen and rng.random() < 0.25:
+            # an idle machine answers every poll with the very same report: an earlier report of this
+            # history arrives again byte for byte (other reports may have come in between)
+            line, exp, key = rng.choice(seen[-3:])
+            col.count("reports_repeated_verbatim")
+        else:
+            line, exp, key = rng.choice(FAMILIES)(rng)
+            seen.append((line, exp, key))
         delegate._ack_event.clear()
         # line framing as it reaches the callback: terminators, and now and then leading blanks or the
         # stray CR of a device that ends its lines with LF CR
